@@ -10,12 +10,40 @@ action per critical section / per piece of code after an unlock, per-thread prog
 Aggregator.tla's (INSTANCE), checked over all interleavings together with lock discipline, conservation, no stuck state
 and termination.  Its graph is replayed on real threads under the controlled scheduler with the queue's mutex virtual
 by harness/aggregator_conc_replay.cpp (conc_replay below, both tiers): every thread's pending operation and the guarded
-state are compared after every step."""
+state are compared after every step.
+
+A source fails by an exception of a KIND (Aggregator.tla ThrowSteps: a user type, a non-std type, and the library's own
+value_not_ready / no_more_values / await_canceled exceptions, which a source relaying other cocls objects fails with and
+which the library also uses for its own signalling).  Every graph job gets ONE failure step, rotated over the jobs so
+that each tier exercises every kind in every position / implementation; the `exc*` jobs have all kinds together (several
+failed sources of different kinds).  The replayers observe the dynamic type and the identity of the exception object
+the consumer gets (harness/aggregator_exc.h)."""
 import os
 import threading
 
 import vlib
 from framework import Ctx, graph_replay
+
+THROWS = ["throw", "throw_vnr", "throw_nomore", "throw_cancel", "throw_nonstd"]
+
+
+def tla_set(xs):
+    return "{" + ", ".join('"%s"' % x for x in xs) + "}"
+
+
+def alphabet(steps, rot):
+    """the source alphabet of a job: the placeholder "throw" becomes the job's failure step (rot-th of THROWS), "throw*"
+    all of them"""
+    out = []
+    for x in steps:
+        if x == "throw":
+            out.append(THROWS[rot % len(THROWS)])
+        elif x == "throw*":
+            out += THROWS
+        else:
+            out.append(x)
+    return tla_set(out)
+
 
 MERGE = r"(AggStart|AggInit|AggResume|AggLoop|AggGot|AggEnd|SrcStep|Push|Drain)$"
 PLAIN = ("alive", "ast", "cscript", "obs", "queue", "waiter")
@@ -58,7 +86,7 @@ def conc_proj(st):
     obs = [dict(o) for o in st["obs"]]
     if tpc["0"] == "wait" and obs:
         # a blocking access has not returned yet: whatever was handed over, the consumer has not looked at it
-        obs[-1] = {"r": "pending", "s": 0, "v": 0}
+        obs[-1] = {"k": "none", "r": "pending", "s": 0, "v": 0}
     d["obs"] = obs
     pend = {}
     for t, pc in tpc.items():
@@ -83,13 +111,17 @@ def conc_replay(ctx, tag="conc", max_paths_quick=None, sources=(2, 3)):
     q = ctx.quick
     styles = [("sync", "co"), ("iter", "fut"), ("sync", "fut"), ("iter", "co")]
     yr = '{"yield", "return"}'
+    # the failure step of the lock-grain graphs: one kind per run in the quick tier, the user type and one of the library's
+    # types in the thorough tier (the kinds do not differ in the thread structure; all of them are in the sequential graphs)
+    ytr = alphabet(["yield", "throw", "return"], ctx.seed)
+    ytr2 = tla_set(["yield", "throw", THROWS[1 + ctx.seed % 4], "return"])
     # (tag, constants, max_paths in quick)
     if q:
-        jobs = [("conc2", {"NS": 2, "MaxSteps": 2, "MaxAcc": 3}, 2500),
+        jobs = [("conc2", {"NS": 2, "MaxSteps": 2, "MaxAcc": 3, "SrcKinds": ytr}, 2500),
                 ("conc3", {"NS": 3, "MaxSteps": 2, "MaxAcc": 2, "SrcKinds": yr,
                            "Classes": '{"b"}' if ctx.seed % 2 else '{"n"}'}, 1500)]
     else:
-        jobs = [("conc2", {"NS": 2, "MaxSteps": 3, "MaxAcc": 4, "MaxAfterEnd": 1}, None),
+        jobs = [("conc2", {"NS": 2, "MaxSteps": 3, "MaxAcc": 4, "MaxAfterEnd": 1, "SrcKinds": ytr2}, None),
                 ("conc3", {"NS": 3, "MaxSteps": 2, "MaxAcc": 2, "SrcKinds": yr}, None)]
     for jtag, consts, cap in jobs:
         ns = consts["NS"]
@@ -111,7 +143,7 @@ def conc_replay(ctx, tag="conc", max_paths_quick=None, sources=(2, 3)):
         # three sources with the full alphabet and one more access: the specification alone (all invariants, termination)
         path = os.path.join(vlib.BUILD, "%s_%s3full.cfg" % (ctx.prop, tag))
         vlib.write_cfg(path, open(os.path.join(vlib.VERIF, "spec/Aggregator/AggregatorConc.cfg")).read(),
-                       {"NS": "3", "MaxSteps": "2", "MaxAcc": "3"})
+                       {"NS": "3", "MaxSteps": "2", "MaxAcc": "3", "SrcKinds": ytr})
         res = ctx.tlc("Aggregator", "AggregatorConc", path, tag + "3full", workers=8, timeout=3600)
         if res.violation:
             ctx.tlc_violation(res, "AggregatorConc:conc3full")
@@ -122,7 +154,8 @@ def conc_replay(ctx, tag="conc", max_paths_quick=None, sources=(2, 3)):
 
 SEQ_MODES = ["native/sync/fc", "coro/iter/cf", "native_raw/iter/cf", "coro/sync/fc"]
 THR_MODES = ["thr_late/sync/fc", "thr_early/iter/cf", "thr_early/sync/cf", "thr_late/iter/fc"]
-ARGK = '{"ynull", "yield", "apend", "throw", "return"}'
+STDK = ["yield", "apend", "throw", "return"]
+ARGK = ["ynull", "yield", "apend", "throw", "return"]
 
 
 class ConcJob:
@@ -196,7 +229,7 @@ def run_sequential(ctx):
                  {"NS": 2, "WithArg": "TRUE", "SrcKinds": ARGK, "MaxAcc": 6}))
     jobs.append(("Aggregator_seq.cfg", "arg3", True, ["native/sync/cf", "coro/sync/fc"], [],
                  None,
-                 {"NS": 3, "WithArg": "TRUE", "SrcKinds": '{"ynull", "yield", "throw", "return"}', "MaxSteps": 3, "MaxAcc": 4}))
+                 {"NS": 3, "WithArg": "TRUE", "SrcKinds": ["ynull", "yield", "throw", "return"], "MaxSteps": 3, "MaxAcc": 4}))
     jobs.append(("Aggregator_thr.cfg", "thr2", False, THR_MODES, ["ExternalResolve", "Drain"],
                  {"NS": 2, "MaxAcc": 3},
                  {"NS": 2, "MaxAcc": 5}))
@@ -212,13 +245,30 @@ def run_sequential(ctx):
                  {"NS": 4, "MaxSteps": 2, "MaxAcc": 5, "EarlyDestroy": "FALSE"}))
     jobs.append(("Aggregator_seq.cfg", "seq5", False, SEQ_MODES[1:3], ["ExternalResolve"],
                  None,
-                 {"NS": 5, "SrcKinds": '{"yield", "apend", "return"}', "MaxSteps": 2, "MaxAcc": 4, "Classes": '{"n"}',
+                 {"NS": 5, "SrcKinds": ["yield", "apend", "return"], "MaxSteps": 2, "MaxAcc": 4, "Classes": '{"n"}',
                   "EarlyDestroy": "FALSE"}))
+    # all kinds of failure together: several failed sources of different kinds (the aggregate reports the one it caught
+    # last, whatever the kinds), failures of every kind next to sources that end normally
+    jobs.append(("Aggregator_seq.cfg", "exc2", False, SEQ_MODES, [],
+                 {"NS": 2, "SrcKinds": ["yield", "throw*", "return"], "MaxSteps": 2, "MaxAcc": 3, "EarlyDestroy": "FALSE"},
+                 {"NS": 2, "SrcKinds": ["yield", "apend", "throw*", "return"], "MaxSteps": 3, "MaxAcc": 4, "EarlyDestroy": "FALSE"}))
+    jobs.append(("Aggregator_thr.cfg", "excthr2", False, THR_MODES, ["Drain"],
+                 None,
+                 {"NS": 2, "SrcKinds": ["yield", "apend", "throw*", "return"], "MaxSteps": 2, "MaxAcc": 3}))
+    jobs.append(("Aggregator_seq.cfg", "excarg2", True, ["native/sync/fc", "coro/sync/cf"], [],
+                 None,
+                 {"NS": 2, "WithArg": "TRUE", "SrcKinds": ["ynull", "yield", "throw*", "return"], "MaxSteps": 3, "MaxAcc": 4,
+                  "EarlyDestroy": "FALSE"}))
+    rot = ctx.seed      # the failure step of the next job that has sources
     for j, (cfg, tag, witharg, modes, extra, cq, ct) in enumerate(jobs):
         consts = cq if q else ct
         if consts is None:
             continue
         ns = consts["NS"]
+        consts = dict(consts)
+        consts["SrcKinds"] = alphabet(consts.get("SrcKinds", STDK), rot)
+        if ns:
+            rot += 1
         consts = {k: str(v) for k, v in consts.items()}
         if q:
             # two of the job's modes, rotating over the jobs so that every implementation occurs in the quick tier
@@ -234,7 +284,7 @@ def run_sequential(ctx):
         for ns in (4, 5):
             path = os.path.join(vlib.BUILD, "%s_sim%d.cfg" % (ctx.prop, ns))
             vlib.write_cfg(path, open(os.path.join(vlib.VERIF, "spec/Aggregator/Aggregator_thr.cfg")).read(),
-                           {"NS": str(ns), "MaxAcc": "8"})
+                           {"NS": str(ns), "MaxAcc": "8", "SrcKinds": alphabet(["yield", "apend", "throw*", "return"], 0)})
             res = ctx.tlc("Aggregator", "Aggregator", path, "sim%d" % ns, workers=4, simulate="num=30000", depth=200)
             if res.violation:
                 ctx.tlc_violation(res, "Aggregator:sim%d" % ns)
@@ -245,6 +295,10 @@ def run_sequential(ctx):
                "only while parked (before first activation, at a co_yield, after the end); single-threaded histories never make a "
                "blocking access or the destructor wait for an operation only the same thread could complete (those run on a second "
                "thread under the controlled scheduler in two release orders); co_yield nullptr only as a source's first step")
+    ctx.assume("a source fails with a user type, a non-std type or one of the library's own exception types (odd sources produce the "
+               "latter the way a relaying source does: pending future, dropped promise, generator past its end); what the consumer gets "
+               "is attributed to a source by the identity of the exception object (exception_ptr equality; rethrowing does not copy in "
+               "the Itanium ABI) and reported with its dynamic type; fresh objects of the library's types are the library's own signals")
     ctx.assume("when several sources throw, the aggregate keeps the exception it caught last (generator_aggregator.h:128) and "
                "reports that one at the end; the access styles themselves are C13's subject: a no_more_values_exception "
                "after the end is counted as an end indication")
